@@ -6,8 +6,12 @@
 import MdModel.DumpFull
 import MdProofs.Lemmas.BytesMiscInfo
 import MdProofs.Lemmas.BytesMaps
+import MdProofs.Lemmas.BytesIds
+import MdProofs.Lemmas.BytesRegs
 namespace MdModel.Dump
 open MdModel MdModel.Gen.Layouts MdModel.Gen.LayoutsX
+open MdModel.Gen.LayoutsC02 (ST_MiscInfoStream ST_LinuxMaps)
+open MdModel.Gen.MapsGuard (MAPS_GUARDED)
 
 /-! ### the Linux-maps operation: reader + lookups -/
 
@@ -38,5 +42,349 @@ theorem cnt_readMapsOutG (g : Bool) (s : Bytes) : CntLe (4 * s.size + 6) (readMa
   refine (cnt_bind (cnt_readLinuxMapsG g s) (C := 0) (fun m _ => ?_)).mono (by omega)
   refine cnt_bind (A := 0) ?_ (C := 0) (fun _ _ => cnt_pure _)
   rw [cnt_zero_iff]; exact mapsProbes_allocs m _
+
+/-! ### what `readAll` guarantees about the lists the third group works on -/
+
+theorem readModuleList_length {ms : MemSizes} {b all : Bytes} {e : Endian} {mods : List Module}
+    (h : (readModuleList ms b all e).res = .ok mods) : mods.length * 108 ≤ b.size := by
+  unfold readModuleList at h
+  obtain ⟨raws, hraws, h⟩ := bind_ok h
+  obtain ⟨_, _, h⟩ := bind_ok h
+  have h1 := readStreamList_ok hraws
+  rw [size_module] at h1
+  have : ∀ (rs : List RawModule) (ms' : List Module), (readModules all e rs).res = .ok ms' → ms'.length ≤ rs.length := by
+    intro rs
+    induction rs with
+    | nil => intro ms' h'; have := pure_ok h'; subst this; simp
+    | cons r rest ih =>
+      intro ms' h'
+      unfold readModules at h'
+      split at h'
+      · have := ih ms' h'; simp only [List.length_cons]; omega
+      · obtain ⟨_, _, h'⟩ := bind_ok h'
+        obtain ⟨ms'', hms'', h'⟩ := bind_ok h'
+        have := pure_ok h'; subst this
+        have := ih ms'' hms''
+        simp only [List.length_cons]; omega
+  have := this _ _ h
+  simp only [List.length_map] at this
+  exact Nat.le_trans (Nat.mul_le_mul_right _ this) h1
+
+theorem readMemoryInfoList_length {ms : MemSizes} {b : Bytes} {e : Endian} {is : List MemInfo}
+    (h : (readMemoryInfoList ms b e).res = .ok is) : is.length * 48 ≤ b.size := by
+  unfold readMemoryInfoList at h
+  obtain ⟨raws, hraws, h⟩ := bind_ok h
+  obtain ⟨_, _, h⟩ := bind_ok h
+  have := pure_ok h; subst this
+  have h1 := readExStreamList_ok hraws
+  rw [size_meminfo] at h1
+  simpa using h1
+
+/-- the facts about a `Parsed` that `readMore`'s bounds need -/
+structure ParsedOk2 (b : Bytes) (p : Parsed) : Prop where
+  modules : ∀ ms, p.modules = .ok ms → (∀ m ∈ ms, ModuleOk b.size m) ∧ ms.length * 108 ≤ b.size
+  memInfo : ∀ is, p.memInfo = .ok is → is.length * 48 ≤ b.size
+
+theorem readAll_parsedOk2 {ms : MemSizes} {b : Bytes} {p : Parsed} (h : (readAll ms b).res = .ok (.ok p)) :
+    ParsedOk2 b p ∧ readDump b = .ok p.dump := by
+  unfold readAll at h
+  split at h
+  · cases h
+  · rename_i d hd
+    obtain ⟨c, hc, h⟩ := bind_ok h
+    obtain ⟨cp, _, h⟩ := bind_ok h
+    have := pure_ok h
+    cases this
+    unfold readCore at hc
+    dsimp only at hc
+    obtain ⟨threads, _, hc⟩ := bind_ok hc
+    obtain ⟨modules, hmod, hc⟩ := bind_ok hc
+    obtain ⟨unloaded, _, hc⟩ := bind_ok hc
+    obtain ⟨memory, _, hc⟩ := bind_ok hc
+    obtain ⟨memory64, _, hc⟩ := bind_ok hc
+    obtain ⟨memInfo, hmi, hc⟩ := bind_ok hc
+    obtain ⟨threadNames, _, hc⟩ := bind_ok hc
+    obtain ⟨threadInfo, _, hc⟩ := bind_ok hc
+    obtain ⟨handles, _, hc⟩ := bind_ok hc
+    obtain ⟨exception, _, hc⟩ := bind_ok hc
+    have := pure_ok hc
+    subst this
+    refine ⟨⟨fun mods hmods => ?_, fun is his => ?_⟩, hd⟩
+    · simp only at hmods
+      subst hmods
+      obtain ⟨s, hs, hr⟩ := getStream_ok_inv hmod
+      have := readModuleList_length hr
+      exact ⟨readModuleList_ok hr, by omega⟩
+    · simp only at his
+      subst his
+      obtain ⟨s, hs, hr⟩ := getStream_ok_inv hmi
+      have := readMemoryInfoList_length hr
+      omega
+
+/-! ### `readMore`: the only panic is the Linux-maps reader on hostile text -/
+
+theorem isPanic_catch {α : Type} (x : M α) : IsPanic (M.catch' x) ↔ IsPanic x := by
+  unfold M.catch' IsPanic
+  cases hres : x.res with
+  | ok a => simp
+  | err e => simp
+  | panic s => simp
+
+theorem isPanic_getStream {α : Type} (d : Dump) (b : Bytes) (ty : Nat) (reader : Bytes → M α) :
+    IsPanic (getStream d b ty reader) ↔ ∃ s, getRawStream d b ty = .ok s ∧ IsPanic (reader s) := by
+  unfold getStream
+  cases hraw : getRawStream d b ty with
+  | error er =>
+    simp only [reduceCtorEq, false_and, exists_false, iff_false]
+    exact isPanic_pure _
+  | ok s =>
+    simp only [Except.ok.injEq, exists_eq_left']
+    exact isPanic_catch _
+
+/-- the file has a Linux-maps stream whose text makes procfs-core panic -/
+def MapsStreamHostile (b : Bytes) (d : Dump) : Prop :=
+  ∃ s, getRawStream d b ST_LinuxMaps = .ok s ∧ MapsHostile s.toList
+
+theorem isPanic_of_safe {α : Type} {B : Nat} {m : M α} (h : Safe B m) : ¬ IsPanic m := (noPanic_iff m).mp h.1
+
+theorem isPanic_bind_safe {α β : Type} {B : Nat} {x : M α} {f : α → M β} (hx : Safe B x) :
+    IsPanic (x >>= f) ↔ ∃ a, x.res = .ok a ∧ IsPanic (f a) := by
+  rw [isPanic_bind]
+  constructor
+  · intro h
+    cases h with
+    | inl h => exact absurd h (isPanic_of_safe hx)
+    | inr h => exact h
+  · intro h; exact .inr h
+
+/-- the operations of `readMore` after the Linux-maps one -/
+def moreTail (b : Bytes) (f : Full) (misc : Except Err MiscPrinted) (maps : Except String (Except Err MapsOut)) : M More :=
+  let d := f.base.dump
+  let e := d.endian
+  let infoOpt := match f.base.memInfo with
+    | .ok is => some is
+    | .error _ => none
+  (match maps with
+   | .error site => pure (.error site)
+   | .ok r =>
+     let mapsOpt := match r with
+       | .ok mo => some mo.maps
+       | .error _ => none
+     unifiedOut infoOpt mapsOpt >>= fun u => pure (.ok u)) >>= fun unified =>
+  let osp := match f.extra.sys with
+    | .ok si => some (osPartsOf si)
+    | .error _ => none
+  let os := match f.extra.sys with
+    | .ok si => Encode.osOfPlatform si.platform
+    | .error _ => Encode.Os.unknown
+  (match f.base.modules with
+   | .ok ms => modulesOut os e ms >>= fun r => pure (some r)
+   | .error _ => pure none) >>= fun modules =>
+  let unloaded := match f.base.unloaded with
+    | .ok us => some (us.map unloadedIds)
+    | .error _ => none
+  getStream d b ST_MozSoftErrors readSoftErrors >>= fun soft =>
+  (match f.base.threads, f.extra.sys with
+   | .ok ts, .ok si => threadRegisters b e si.arch ts >>= fun r => pure (some r)
+   | _, _ => pure none) >>= fun regs =>
+  (match f.base.exception, f.extra.sys with
+   | .ok x, .ok si => registersOf b e si.arch x.context >>= fun r => pure (some r)
+   | _, _ => pure none) >>= fun excRegs =>
+  pure { misc := misc, maps := maps, unified := unified, osParts := osp, modules := modules, unloaded := unloaded,
+         softErrors := soft, regs := regs, excRegs := excRegs }
+
+theorem readMore_eq (caught : Bool) (b : Bytes) (f : Full) :
+    readMore caught b f =
+      (getStream f.base.dump b ST_MiscInfoStream (fun s => readMiscInfoX s f.base.dump.endian) >>= fun misc =>
+       guarded caught (getStream f.base.dump b ST_LinuxMaps readMapsOut) >>= fun maps => moreTail b f misc maps) := rfl
+
+/-- what the maps operation hands on, when it did not panic -/
+def MapsResOk (maps : Except String (Except Err MapsOut)) : Prop :=
+  ∀ r mo, maps = .ok r → r = .ok mo → MapsWF mo.maps ∧ ∀ x ∈ mo.maps.entries, x.hi ≤ U64MAX
+
+theorem readLinuxMapsX_hi {b : Bytes} {m : LinuxMapsX} (h : (readLinuxMapsX b).res = .ok m) : ∀ x ∈ m.entries, x.hi ≤ U64MAX := by
+  unfold readLinuxMapsX at h
+  obtain ⟨es, hes, h⟩ := bind_ok h
+  obtain ⟨_, _, h⟩ := bind_ok h
+  obtain ⟨t, _, h⟩ := bind_ok h
+  have := pure_ok h
+  subst this
+  exact (mapsLoopX_ok_count _ _ _ _ hes).2 (fun x hx => by cases hx)
+
+theorem readMapsOutG_ok {g : Bool} {s : Bytes} {mo : MapsOut} (h : (readMapsOutG g s).res = .ok mo) :
+    MapsWF mo.maps ∧ ∀ x ∈ mo.maps.entries, x.hi ≤ U64MAX := by
+  unfold readMapsOutG at h
+  obtain ⟨m, hm, h⟩ := bind_ok h
+  obtain ⟨_, _, h⟩ := bind_ok h
+  have := pure_ok h
+  subst this
+  have hx := readLinuxMapsG_ok hm
+  exact ⟨(readLinuxMapsX_ok hx).1, readLinuxMapsX_hi hx⟩
+
+theorem moreTail_safe (b : Bytes) (f : Full) (misc : Except Err MiscPrinted) (maps : Except String (Except Err MapsOut))
+    (hp : ParsedOk2 b f.base) (hmaps : MapsResOk maps) : Safe (Bnd b) (moreTail b f misc maps) := by
+  unfold moreTail
+  dsimp only
+  refine safe_bind ?_ (fun _ _ => ?_)
+  · split
+    · exact safe_pure _
+    · rename_i r
+      refine safe_bind (unifiedOut_safe _ _ (fun is his => ?_) (fun m hm => ?_)) (fun _ _ => safe_pure _)
+      · split at his
+        · rename_i is' hmi
+          cases his
+          have := hp.memInfo _ hmi
+          unfold Bnd K; omega
+        · cases his
+      · split at hm
+        · rename_i mo
+          cases hm
+          exact hmaps _ mo rfl rfl
+        · cases hm
+  refine safe_bind ?_ (fun _ _ => ?_)
+  · split
+    · rename_i ms hms
+      have ⟨hok, _⟩ := hp.modules _ hms
+      exact safe_bind (modulesOut_safe _ _ (by unfold Bnd K; omega) ms hok) (fun _ _ => safe_pure _)
+    · exact safe_pure _
+  refine safe_bind (getStream_safe _ _ _ _ (fun s _ => readSoftErrors_safe s)) (fun _ _ => ?_)
+  refine safe_bind ?_ (fun _ _ => ?_)
+  · split
+    · exact safe_bind (threadRegisters_safe _ _ _ _) (fun _ _ => safe_pure _)
+    · exact safe_pure _
+  refine safe_bind ?_ (fun _ _ => safe_pure _)
+  · split
+    · exact safe_bind (registersOf_safe _ _ _ _) (fun _ _ => safe_pure _)
+    · exact safe_pure _
+
+theorem misc_getStream_safe (b : Bytes) (d : Dump) :
+    Safe (Bnd b) (getStream d b ST_MiscInfoStream (fun s => readMiscInfoX s d.endian)) :=
+  getStream_safe _ _ _ _ (fun s hs => readMiscInfoX_safe s _ (by unfold Bnd K; omega))
+
+/-- **the panic frontier of the third group** -/
+theorem readMore_panic_iff (b : Bytes) (f : Full) (hp : ParsedOk2 b f.base) :
+    IsPanic (readMore false b f) ↔ MAPS_GUARDED = false ∧ MapsStreamHostile b f.base.dump := by
+  rw [readMore_eq]
+  rw [isPanic_bind_safe (misc_getStream_safe b f.base.dump)]
+  unfold guarded
+  simp only [Bool.false_eq_true, ↓reduceIte]
+  constructor
+  · intro ⟨misc, _, hp'⟩
+    rw [isPanic_bind, isPanic_bind] at hp'
+    cases hp' with
+    | inl h1 =>
+      cases h1 with
+      | inl h2 =>
+        obtain ⟨s, hs, hps⟩ := (isPanic_getStream _ _ _ _).mp h2
+        have := (readMapsOutG_panic_iff MAPS_GUARDED s).mp hps
+        exact ⟨this.1, s, hs, this.2⟩
+      | inr h2 => obtain ⟨_, _, h3⟩ := h2; exact absurd h3 (isPanic_pure _)
+    | inr h1 =>
+      exfalso
+      obtain ⟨maps, hmaps, htail⟩ := h1
+      obtain ⟨r, hr, hpure⟩ := bind_ok hmaps
+      have := pure_ok hpure
+      subst this
+      refine isPanic_of_safe (moreTail_safe b f misc (.ok r) hp ?_) htail
+      intro r' mo h1 h2
+      cases h1
+      subst h2
+      obtain ⟨s, _, hread⟩ := getStream_ok_inv hr
+      exact readMapsOutG_ok hread
+  · intro ⟨hg, s, hs, hh⟩
+    have hmisc := misc_getStream_safe b f.base.dump
+    cases hres : (getStream f.base.dump b ST_MiscInfoStream (fun s => readMiscInfoX s f.base.dump.endian)).res with
+    | panic p => exact absurd ⟨p, hres⟩ (isPanic_of_safe hmisc)
+    | err e => exact absurd hres (getStream_noErr _ _ _ _ e)
+    | ok misc =>
+      refine ⟨misc, rfl, ?_⟩
+      rw [isPanic_bind, isPanic_bind]
+      exact .inl (.inl ((isPanic_getStream _ _ _ _).mpr ⟨s, hs, (readMapsOutG_panic_iff MAPS_GUARDED s).mpr ⟨hg, hh⟩⟩))
+
+/-! ### allocations of `readMore`, on every path -/
+
+theorem allocsLe_of_safe {α : Type} {B : Nat} {m : M α} (h : Safe B m) : AllocsLe B m := h.2
+
+theorem readMore_allocsLe (caught : Bool) (b : Bytes) (f : Full) (hp : ParsedOk2 b f.base) :
+    AllocsLe (Bnd b) (readMore caught b f) := by
+  rw [readMore_eq]
+  refine allocsLe_bind (misc_getStream_safe b f.base.dump).2 (fun misc _ => ?_)
+  have hmapsop : AllocsLe (Bnd b) (getStream f.base.dump b ST_LinuxMaps readMapsOut) :=
+    allocsLe_getStream _ _ _ _ (fun s hs => by
+      have := readMapsOutG_allocsLe MAPS_GUARDED s
+      intro a ha
+      have := this a ha
+      unfold Bnd K; omega)
+  refine allocsLe_bind ?_ (fun maps hmaps => ?_)
+  · unfold guarded
+    split
+    · unfold M.catchUnwind
+      cases (getStream f.base.dump b ST_LinuxMaps readMapsOut).res <;> exact hmapsop
+    · exact allocsLe_bind hmapsop (fun _ _ => allocsLe_pure _)
+  · refine (moreTail_safe b f misc maps hp ?_).2
+    intro r mo h1 h2
+    subst h1 h2
+    have hr : (getStream f.base.dump b ST_LinuxMaps readMapsOut).res = .ok (.ok mo) := by
+      unfold guarded at hmaps
+      split at hmaps
+      · unfold M.catchUnwind at hmaps
+        cases hres : (getStream f.base.dump b ST_LinuxMaps readMapsOut).res with
+        | ok a => rw [hres] at hmaps; simp only at hmaps; cases hmaps; rfl
+        | err e => rw [hres] at hmaps; cases hmaps
+        | panic p => rw [hres] at hmaps; cases hmaps
+      · obtain ⟨a, ha, hpure⟩ := bind_ok hmaps
+        have := pure_ok hpure
+        cases this
+        exact ha
+    obtain ⟨s, _, hread⟩ := getStream_ok_inv hr
+    exact readMapsOutG_ok hread
+
+theorem cnt_guarded {α : Type} {N : Nat} (caught : Bool) {x : M α} (h : CntLe N x) : CntLe N (guarded caught x) := by
+  unfold guarded
+  split
+  · unfold M.catchUnwind CntLe
+    cases x.res <;> exact h
+  · exact (cnt_bind h (C := 0) (fun _ _ => cnt_pure _)).mono (by omega)
+
+theorem cnt_moreTail (b : Bytes) (f : Full) (misc : Except Err MiscPrinted) (maps : Except String (Except Err MapsOut))
+    (hp : ParsedOk2 b f.base) : CntLe (1 + 4 * (b.size / 108)) (moreTail b f misc maps) := by
+  unfold moreTail
+  dsimp only
+  refine (cnt_bind (A := 1) ?_ (C := 4 * (b.size / 108)) (fun _ _ => ?_)).mono (by omega)
+  · split
+    · exact (cnt_pure _).mono (by omega)
+    · exact (cnt_bind (cnt_unifiedOut _ _) (C := 0) (fun _ _ => cnt_pure _)).mono (by omega)
+  refine (cnt_bind (A := 4 * (b.size / 108)) ?_ (C := 0) (fun _ _ => ?_)).mono (by omega)
+  · split
+    · rename_i ms hms
+      have ⟨_, hlen⟩ := hp.modules _ hms
+      have : ms.length ≤ b.size / 108 := by omega
+      exact (cnt_bind (cnt_modulesOut _ _ ms) (C := 0) (fun _ _ => cnt_pure _)).mono (by omega)
+    · exact (cnt_pure _).mono (by omega)
+  refine cnt_bind (A := 0) (cnt_getStream_const (N := 0) _ _ _ _ (fun s => cnt_readSoftErrors s)) (C := 0) (fun _ _ => ?_)
+  refine cnt_bind (A := 0) ?_ (C := 0) (fun _ _ => ?_)
+  · split
+    · refine cnt_bind (A := 0) ?_ (C := 0) (fun _ _ => cnt_pure _)
+      rw [cnt_zero_iff]; exact threadRegisters_allocs _ _ _ _
+    · exact cnt_pure _
+  refine cnt_bind (A := 0) ?_ (C := 0) (fun _ _ => cnt_pure _)
+  · split
+    · refine cnt_bind (A := 0) ?_ (C := 0) (fun _ _ => cnt_pure _)
+      rw [cnt_zero_iff]; exact registersOf_allocs _ _ _ _
+    · exact cnt_pure _
+
+/-- the third group makes at most `5 * len + 11` allocations -/
+theorem cnt_readMore (caught : Bool) (b : Bytes) (f : Full) (hp : ParsedOk2 b f.base) :
+    CntLe (5 * b.size + 11) (readMore caught b f) := by
+  rw [readMore_eq]
+  refine (cnt_bind (cnt_getStream_const (N := 4) _ _ _ _ (fun s => cnt_readMiscInfoX s _)) (C := 5 * b.size + 7) (fun _ _ => ?_)).mono (by omega)
+  have hm : CntLe (4 * b.size + 6) (getStream f.base.dump b ST_LinuxMaps readMapsOut) := by
+    unfold getStream
+    split
+    · exact (cnt_pure _).mono (by omega)
+    · rename_i s hs
+      have := getRawStream_size hs
+      exact (cnt_catch (cnt_readMapsOutG MAPS_GUARDED s)).mono (by omega)
+  refine (cnt_bind (cnt_guarded caught hm) (C := 1 + 4 * (b.size / 108)) (fun _ _ => cnt_moreTail b f _ _ hp)).mono (by omega)
 
 end MdModel.Dump
